@@ -37,6 +37,49 @@ QR_BIND = {"n": "->n", "no": "->no", "r_deep": "->deep", "f_deep": "->deep", "qr
 EC_BIND = {"n": "->f->n", "f_deep": "->f->deep", "ec_d": "->d", "ec_deep": "->deep", "no": "->f->no"}
 
 
+def _wofo(x, w): return ("bin", "/", ("bin", "+", x, lit(w - 1)), lit(w))
+def _wofb(x, w): return ("bin", "/", ("bin", "+", x, lit(8 * w - 1)), lit(8 * w))
+def _oofb(x): return ("bin", "/", ("bin", "+", x, lit(7)), lit(8))
+def _v(n): return ("var", n)
+def _c(f, *a): return ("call", f, list(a))
+
+
+def word_size(tree):
+    """sizeof(word) in this configuration, computed by clang"""
+    f = "src/math/ww.c"
+    tree.resolve_sizeofs({(f, "word")})
+    v = tree.sizeof(f, "word")
+    if v not in (2, 4, 8):
+        raise Unhandled("sizeof(word) = %r" % v)
+    return v
+
+
+def contracts(w):
+    """POST-CONDITIONS of the object constructors, w = sizeof(word).  They are NOT trusted: for every
+    function listed here the translator also generates the goals that establish the post-condition
+    from the function's own body (theorem of that function, goals labelled `post`).
+    obj: the parameter that points to the object; alias/eq/le: facts about obj<suffix> after the call,
+    as IR over the constructor's own parameters (sizes by name, members of pointer parameters by path)."""
+    C = {}
+    for nm in ("zmCreatePlain", "zmCreateCrand", "zmCreateBarr", "zmCreateMont", "zmCreate", "zmMontCreate", "gfpCreate"):
+        C[nm] = {"obj": "r",
+                 "eq": {"->n": _wofo(_v("no"), w), "->no": _v("no")},
+                 "le": {"->deep": _c(nm + "_deep", _v("no")), "->keep": _c(nm + "_keep", _v("no"))}}
+    for nm in ("ecpCreateJ", "ec2CreateLD"):
+        C[nm] = {"obj": "ec", "alias": {"->f": "f"}, "eq": {"->d": lit(3)},
+                 "le": {"->deep": _c(nm + "_deep", _v("f->n"), _v("f->deep")), "->keep": _c(nm + "_keep", _v("f->n"))}}
+    for nm, lv in (("bignStart", "params->l"), ("bign96Start", None)):
+        if lv is None:
+            no, n = lit(24), _wofo(lit(24), w)
+        else:
+            no, n = _oofb(("bin", "*", lit(2), _v(lv))), _wofb(("bin", "*", lit(2), _v(lv)), w)
+        fd = _c("gfpCreate_deep", no)
+        C[nm] = {"obj": "state", "eq": {"->f->n": n, "->f->no": no, "->d": lit(3)},
+                 "le": {"->f->deep": fd, "->deep": _c("ecpCreateJ_deep", n, fd),
+                        "->keep": ("bin", "+", _c("gfpCreate_keep", no), _c("ecpCreateJ_keep", n))}}
+    return C
+
+
 class UseFn:
     def __init__(self, tree, fn, purefns):
         self.tree, self.fn, self.pure = tree, fn, purefns
@@ -49,6 +92,7 @@ class UseFn:
         self.carves = []     # (base, offset IR) every offset reached
         self.installs = []   # (path, IR or ('fn', key))
         self.fresh = 0
+        self._pending_contract = None
         self.intparams = set()
         self.ptrparams = {}
         for (nm, qt, dq) in fn.params:
@@ -62,6 +106,9 @@ class UseFn:
         self.tr = ExprTr(tree, fn.file, self.resolve)
         self.cond_depth = 0
         self.loop_depth = 0
+        self.contracts = contracts(word_size(tree))
+        self.cond_posts = []     # (callee, obj path, {"eq": {suffix: IR}, "le": {...}, "alias": {...}}) applied under a condition
+        self.applied = []        # contracts used as facts
 
     # ------------------------------------------------------------ names
     def path_of(self, n):
@@ -76,7 +123,11 @@ class UseFn:
             b = self.path_of(n["inner"][0])
             if b is None:
                 return None
-            return b + ("->" if n.get("isArrow") else ".") + n["name"]
+            r = b + ("->" if n.get("isArrow") else ".") + n["name"]
+            # objKeep(x) is ((obj_hdr_t*)x)->keep, the creators write x->hdr.keep: one location
+            if r.endswith("->hdr.keep"):
+                r = r[:-len("->hdr.keep")] + "->keep"
+            return r
         return None
 
     def canon(self, path):
@@ -128,9 +179,13 @@ class UseFn:
 
     def try_size(self, n):
         try:
-            return self.size_expr(n)
+            v = self.size_expr(n)
         except Unhandled:
             return None
+        # only translated (pure) size functions may occur in a size expression
+        if any(c not in self.pure for c in calls_of(v)):
+            return None
+        return v
 
     # ------------------------------------------------------------ pointers
     def elem(self, qt):
@@ -353,6 +408,11 @@ class UseFn:
                     raise Unhandled("carve of %s under a condition or in a loop" % nm)
                 self.ptr[nm] = pe
                 self.carves.append(pe)
+                src = strip(rhs)
+                if src["kind"] == "DeclRefExpr" and src["referencedDecl"]["name"] != nm and src["referencedDecl"]["name"] != "stack":
+                    self.memb[nm] = ("path", self.canon(src["referencedDecl"]["name"]))    # same object under another name
+                else:
+                    self.memb.pop(nm, None)
                 return
             # blob allocation
             s = strip(rhs)
@@ -396,6 +456,11 @@ class UseFn:
                 return
         self.visit_calls_only(rhs)
         val = self.try_size(rhs)
+        if val is None and not self.cond_depth and not self.loop_depth:
+            # a value the translator cannot express (a flag computed from data, a length read from memory):
+            # an unconstrained variable -- every obligation is then stated for ALL its values (sound)
+            self.fresh += 1
+            val = ("var", "%s_u%d" % (nm, self.fresh))
         if (self.cond_depth or self.loop_depth) and (nm in self.sizes or nm in self.intparams):
             # conditional re-assignment: value no longer known
             old = self.sizes.get(nm, ("var", nm) if nm in self.intparams else None)
@@ -455,6 +520,9 @@ class UseFn:
                 # be passed as a buffer (memcpy(...)), never as a stack
                 return
             pnames = [p[0] for p in g.params]
+            if cn == "objAppend" and len(args) >= 2:
+                self.obj_append(args[0], args[1])
+            self._pending_contract = (g, args) if g.name in self.contracts else None
             for i, a in enumerate(args):
                 if i < len(pnames) and pnames[i] == "stack":
                     pe = self.ptr_expr(a)
@@ -464,6 +532,8 @@ class UseFn:
                         self.events.append((None, None, ("direct", g.key), self.call_args(g, args), "untracked"))
                         continue
                     self.events.append((pe[0], pe[1], ("direct", g.key), self.call_args(g, args), None))
+            if self._pending_contract:
+                self.apply_contract(g, args)
             return
         if callee["kind"] == "MemberExpr":
             p = self.path_of(callee)
@@ -491,6 +561,88 @@ class UseFn:
                     raise Unhandled("carved pointer passed through a function-pointer variable")
             return
         raise Unhandled("callee " + callee["kind"])
+
+    def cur(self, path):
+        """current symbolic value of a member path"""
+        path = self.canon(path)
+        v = self.memb.get(path)
+        if v is not None and v[0] not in ("path", "fn"):
+            return v
+        return ("var", path)
+
+    def obj_append(self, dest, src):
+        """objAppend(dest, src, i): src is moved to the end of dest, dest->keep grows by src->keep"""
+        d, s_ = self.path_of(dest), self.path_of(src)
+        if d is None or s_ is None:
+            raise Unhandled("objAppend of computed objects")
+        if self.cond_depth or self.loop_depth:
+            raise Unhandled("objAppend under a condition")
+        d, s_ = self.canon(d), self.canon(s_)
+        self.memb[d + "->keep"] = ("bin", "+", self.cur(d + "->keep"), self.cur(s_ + "->keep"))
+
+    def inst_post(self, g, args):
+        """the post-condition of constructor g instantiated at this call: (obj path, {kind: {suffix: value}}) or None"""
+        ct = self.contracts[g.name]
+        env, paths = {}, {}
+        for i, (pn, qt, dq) in enumerate(g.params):
+            if i >= len(args):
+                break
+            if "*" in dq or "[" in dq:
+                pp = self.path_of(args[i])
+                if pp is not None:
+                    paths[pn] = self.canon(pp)
+            else:
+                v = self.try_size(args[i])
+                if v is not None:
+                    env[pn] = v
+        if ct["obj"] not in paths:
+            return None
+        obj = paths[ct["obj"]]
+
+        def inst(e):
+            # variables of the contract: size parameters by name, `p->x` members of pointer parameters
+            def go(e):
+                if e[0] == "var":
+                    nm = e[1]
+                    if nm in env:
+                        return env[nm]
+                    for pn, pth in paths.items():
+                        if nm == pn or nm.startswith(pn + "->"):
+                            return self.cur(pth + nm[len(pn):])
+                    raise Unhandled("contract of %s: %s is not tracked at the call" % (g.name, nm))
+                return tuple(go(x) if isinstance(x, tuple) else ([go(y) for y in x] if isinstance(x, list) else x) for x in e)
+            return fold(go(e))
+        try:
+            post = {"eq": {k: inst(v) for k, v in ct.get("eq", {}).items()},
+                    "le": {k: inst(v) for k, v in ct.get("le", {}).items()},
+                    "alias": {k: paths.get(v) for k, v in ct.get("alias", {}).items()}}
+        except Unhandled:
+            return None
+        if any(v is None for v in post["alias"].values()):
+            return None
+        return obj, post
+
+    def apply_contract(self, g, args):
+        r = self.inst_post(g, args)
+        if r is None:
+            return
+        obj, post = r
+        if self.cond_depth or self.loop_depth:
+            self.cond_posts.append((g.name, obj, post))
+            # whatever was known about these members is no longer known
+            for k in list(post["eq"]) + list(post["le"]) + list(post["alias"]):
+                self.memb.pop(obj + k, None)
+            return
+        self.applied.append(g.name)
+        for k, tgt in post["alias"].items():
+            self.memb[obj + k] = ("path", tgt)
+        for k, v in post["eq"].items():
+            self.memb[self.canon(obj + k)] = v
+        for k, v in post["le"].items():
+            pth = self.canon(obj + k)
+            self.memb.pop(pth, None)
+            self.hyps = [h for h in self.hyps if h[0] != pth]
+            self.hyps.append((pth, v))
 
     def call_args(self, g, args):
         out = []
@@ -695,6 +847,47 @@ class Obligations:
                     mv = u.memb.get(path)
                     args.append(mv if (mv is not None and mv[0] not in ("path", "fn")) else ("var", path))
                 goals.append(("install %s=%s" % (p, g.name), ("call", d.key, args), deeps[obj + "->deep"]))
+        # post-condition of a constructor: established by its own body
+        ct = u.contracts.get(fn.name)
+        if ct is not None:
+            obj = ct["obj"]
+            ptrs = [q[0] for q in fn.params if "*" in q[2] or "[" in q[2]]
+
+            def own(e):
+                if e[0] == "var":
+                    nm = e[1]
+                    for pn in ptrs:
+                        if nm.startswith(pn + "->"):
+                            return u.cur(nm)
+                    return e
+                return tuple(own(x) if isinstance(x, tuple) else ([own(y) for y in x] if isinstance(x, list) else x) for x in e)
+            cps = [cp for cp in u.cond_posts if cp[1] == u.canon(obj)]
+            hyp_paths = {h[0] for h in u.hyps}
+            for k, tgt in ct.get("alias", {}).items():
+                if u.memb.get(u.canon(obj) + k) != ("path", u.canon(tgt)) and u.canon(u.canon(obj) + k) != u.canon(tgt):
+                    raise Unhandled("post-condition %s%s = %s is not established" % (obj, k, tgt))
+            for k, E in ct.get("eq", {}).items():
+                pth = u.canon(obj + k)
+                actual = u.cur(obj + k)
+                if actual == ("var", pth):
+                    if not cps or any(k not in cp[2]["eq"] for cp in cps):
+                        raise Unhandled("post-condition on %s%s is not established" % (obj, k))
+                    for cp in cps:
+                        goals.append(("post %s%s via %s (<=)" % (obj, k, cp[0]), cp[2]["eq"][k], own(E)))
+                        goals.append(("post %s%s via %s (>=)" % (obj, k, cp[0]), own(E), cp[2]["eq"][k]))
+                else:
+                    goals.append(("post %s%s (<=)" % (obj, k), actual, own(E)))
+                    goals.append(("post %s%s (>=)" % (obj, k), own(E), actual))
+            for k, B in ct.get("le", {}).items():
+                pth = u.canon(obj + k)
+                actual = u.cur(obj + k)
+                if actual != ("var", pth) or pth in hyp_paths:
+                    goals.append(("post %s%s" % (obj, k), actual, own(B)))
+                elif cps and all(k in cp[2]["le"] for cp in cps):
+                    for cp in cps:
+                        goals.append(("post %s%s via %s" % (obj, k, cp[0]), cp[2]["le"][k], own(B)))
+                else:
+                    raise Unhandled("post-condition on %s%s is not established" % (obj, k))
         # finish IR (sizeof -> literals), dedupe
         seen, out = set(), []
         for lab, l, r in goals:
@@ -758,6 +951,10 @@ def closure(pure, names):
     return [k for k in sorted(seen) if k not in xd.RECURSION_MEASURES]
 
 
+OPAQUE = {"gfpCreate_deep", "gfpCreate_keep", "zmCreate_deep", "zmCreate_keep", "zmMontCreate_deep", "zmMontCreate_keep",
+          "gf2Create_deep", "gf2Create_keep", "ecpCreateJ_deep", "ecpCreateJ_keep", "ec2CreateLD_deep", "ec2CreateLD_keep"}
+
+
 def thm_name(key):
     return "use_le_deep_" + lean_fn(key)
 
@@ -784,10 +981,14 @@ def gen_lean(ob, ns, skip=()):
             calls_of(rr, top); calls_of(l, allc); calls_of(rr, allc)
         topl = [lean_fn(c) for c in closure({c: ob.pure[c] for c in top if c in ob.pure}, top)]
         alll = [lean_fn(c) for c in closure(ob.pure, allc)]
+        # "mid": everything except the size functions of the object constructors, which stay atoms
+        # (their values only enter through the post-condition hypotheses)
+        midp = {c: q for c, q in ob.pure.items() if c not in OPAQUE}
+        midl = [lean_fn(c) for c in closure(midp, [c for c in allc if c not in OPAQUE])]
         doc = "/-- %s : %s\n%s -/" % (r["file"], k, "\n".join("  [%s]" % lab for lab, _, _ in r["goals"]))
         stmt = " ∧\n    ".join(goals)
-        text = "%s\ntheorem %s %s %s :\n    %s := by\n  c07_use [%s] [%s]\n" % (
-            doc, thm_name(k), vs, hy, stmt, ", ".join(topl), ", ".join(alll))
+        text = "%s\ntheorem %s %s %s :\n    %s := by\n  c07_use [%s] [%s] [%s]\n" % (
+            doc, thm_name(k), vs, hy, stmt, ", ".join(topl), ", ".join(midl), ", ".join(alll))
         if k in skip:
             out.append("/- OPEN (not a theorem): %s\n%s\n-/\n" % (skip[k], text.replace("/-", "/ -").replace("-/", "- /").replace("\ntheorem ", "\nopen_obligation ")))
             opened.append(k)
